@@ -118,4 +118,9 @@ pub trait Exec {
     fn panic_violation(&self, _words: &[&str]) -> Option<String> {
         None
     }
+    /// Should the transcript be flushed to the OS before `words` is executed?  (Ops that may
+    /// never return end the process from a watchdog thread; what was buffered would be lost.)
+    fn flush_before(&self, _words: &[&str]) -> bool {
+        false
+    }
 }
